@@ -93,16 +93,16 @@ func workerC04e(t *testing.T, out *WorkerOut) {
 	for pi := 0; budgetLeft(); pi++ {
 		seed := *flagSeed + int64(pi)
 		kk := k
-		if seed%4 == 1 {
-			// every fourth program: one single-response in-process call whose
+		if seed%2 == 1 {
+			// every other program: one single-response in-process call whose
 			// handler fails and sets metadata - a result in several frames,
 			// each of which a cancel can separate from the others
-			kk.kinds, kk.transports, kk.pErr, kk.pMD, kk.maxRPC = []int{KUnary, KUnary, KClientStream}, []string{TInproc}, 0.8, 1, 1
+			kk.kinds, kk.transports, kk.pErr, kk.pMD, kk.maxRPC = []int{KUnary, KUnary, KUnary, KClientStream}, []string{TInproc}, 0.5, 1, 1
 		}
 		g := &gen{rng: newRand(seed ^ 0x5DEECE66D), k: kk}
 		base := g.program("c04e", seed)
 		base.Faults = nil
-		focus := seed%4 == 1
+		focus := seed%2 == 1
 		if focus {
 			r := base.RPCs[0]
 			if r.NHdrOpts == 0 {
@@ -184,7 +184,7 @@ func workerC04e(t *testing.T, out *WorkerOut) {
 		}
 	}
 	out.Extra = map[string]any{
-		"c04e_enumeration":           "for each generated fault-free program (1-2 calls, both transports, all kinds): cancel of each call at every scheduler step index 0..S+1 of the baseline run (S = its length), each position under the baseline's schedule and under 2 (12 while the result is on its way to the caller) schedules that fork from it at the moment of the cancel; every fourth program is a single in-process single-response call with a failing handler that sets headers and trailers, cancelled only around the end of the call, 40 forks per position; and for programs with a deadline the deadline passing at every step index; programs are drawn per worker until the budget ends",
+		"c04e_enumeration":           "for each generated fault-free program (1-2 calls, both transports, all kinds): cancel of each call at every scheduler step index 0..S+1 of the baseline run (S = its length), each position under the baseline's schedule and under 2 (12 while the result is on its way to the caller) schedules that fork from it at the moment of the cancel; every other program is a single in-process single-response call with a failing handler that sets headers and trailers, cancelled only around the end of the call, 40 forks per position; and for programs with a deadline the deadline passing at every step index; programs are drawn per worker until the budget ends",
 		"c04e_programs_this_worker":  progs,
 		"c04e_cases_this_worker":     cases,
 		"exhaustive_part":            true,
